@@ -439,7 +439,7 @@ func persistCoverage(w *World, r *Report, ro *Roles) {
 }
 
 func checkSignals(w *World, r *Report, ro *Roles) {
-	app := w.FuncByName("app", "appAction")
+	app := w.FuncByRole("app", "appAction", func(f *ssa.Function) bool { return callsNamed(f, "prunner.NewPipelineRunner") && callsNamed(f, "signal.NotifyContext") })
 	if app == nil {
 		r.Undecided("signals.anchors", "app.appAction", "-", "not found")
 		return
@@ -527,7 +527,7 @@ func checkSignals(w *World, r *Report, ro *Roles) {
 	})
 	r.Check(okNew, "signals.runner-context", FuncName(app)+": runner constructed with the graceful context", w.Pos(app.Pos()), "the persist loop stops when shutdown begins; the final save is done by Shutdown", "the runner is not constructed with the graceful context")
 	// HTTP 503 while shutting down
-	if h := w.FuncByName("server", "(*server).pipelinesSchedule"); h != nil {
+	if h := w.FuncByRole("server", "(*server).pipelinesSchedule", func(f *ssa.Function) bool { return callsNamed(f, "PipelineRunner).ScheduleAsync") }); h != nil {
 		pr := w.EnumPaths(h, EnumOpts{})
 		ok503 := false
 		for _, p := range pr.Paths {
